@@ -50,6 +50,8 @@ def _count_identifiers(root: ast.AST) -> Tuple[collections.Counter, ...]:
             attributes[node.attr] += 1
         elif isinstance(node, ast.keyword) and node.arg:
             attributes[node.arg] += 1
+        elif isinstance(node, ast.MatchClass):
+            attributes.update(node.kwd_attrs)
 
     return variables, definitions, fixed_names, attributes
 
@@ -566,12 +568,16 @@ def align_variable_names_with_convention(
         nodes = [node for node, _ in node_substitutes]
         substitutes = {substitute for _, substitute in node_substitutes}
         is_member = not class_members.isdisjoint(nodes)
+        name_count = sum(isinstance(node, ast.Name) for node in nodes)
         scope_definitions = [
             node for node in nodes if not isinstance(node, ast.Name) and node not in class_members
         ]
         if (
-            sum(isinstance(node, ast.Name) for node in nodes) != variables[name]
+            name_count != variables[name]
+            # Every function or class that a name may refer to has to be renamed with the name.
+            # Methods are normally reached as attributes, which are counted separately.
             or len(scope_definitions) != definitions[name] - member_definitions[name]
+            or (name_count and len(nodes) - name_count != definitions[name])
             or fixed_names[name]
             or (is_member and attributes[name])
             or any(
